@@ -919,4 +919,301 @@ theorem fan_walk_le (c : Config) (d : Doc) {k : Nat} (hk : k ≤ c.recLimit + 2)
     Nat.le_trans (fan_mono d hk) (Nat.pow_le_pow_left (by omega) _)
   exact Nat.mul_le_mul (by omega) h1
 
+-- ------------------------------------------------------------------ pinned walkers, no repeated spread
+
+/-! A document in which no fragment name is spread twice: the pinned (re-walking) walkers are linear.
+    Every walker is first bounded by the tree walk `tw` (a recurrence over spread names only); the
+    occurrence counting is `tw_budget`, which threads the list of fragment definitions not yet
+    entered — as the memoising walkers do in their state — through a walk that does not. -/
+
+/-- sum of `r` over a list of names -/
+def sumr (r : String → Nat) (ns : List String) : Nat := (ns.map r).sum
+
+theorem sumr_nil (r : String → Nat) : sumr r [] = 0 := rfl
+theorem sumr_cons (r : String → Nat) (n : String) (ns : List String) : sumr r (n :: ns) = r n + sumr r ns := by
+  simp [sumr]
+theorem sumr_append (r : String → Nat) (a b : List String) : sumr r (a ++ b) = sumr r a + sumr r b := by
+  simp [sumr]
+
+mutual
+theorem vSel_spreads (rec r : String → Nat) (hr : ∀ n, rec n ≤ r n) :
+    ∀ (s : Sel), vSel rec s ≤ selSize s + sumr r (spreadNamesSel s)
+  | .field _ name _ _ sub _ => by
+    have := vSels_spreads rec r hr sub
+    simp only [vSel, selSize, spreadNamesSel]
+    split <;> omega
+  | .spread n _ _ => by
+    have := hr n
+    simp only [vSel, selSize, spreadNamesSel, sumr_cons, sumr_nil]
+    omega
+  | .inline _ _ sub _ => by
+    have := vSels_spreads rec r hr sub
+    simp only [vSel, selSize, spreadNamesSel]
+    omega
+theorem vSels_spreads (rec r : String → Nat) (hr : ∀ n, rec n ≤ r n) :
+    ∀ (ss : List Sel), vSels rec ss ≤ selsSize ss + sumr r (spreadNames ss)
+  | [] => by simp [vSels, selsSize]
+  | s :: ss => by
+    have := vSel_spreads rec r hr s
+    have := vSels_spreads rec r hr ss
+    simp only [vSels, selsSize, spreadNames, sumr_append]
+    omega
+end
+
+mutual
+theorem dpSel_spreads (rec : Nat → String → Nat × Bool) (max : Nat) (r : String → Nat)
+    (hr : ∀ cur n, (rec cur n).1 ≤ r n) :
+    ∀ (s : Sel) (cur : Nat), (dpSel rec max cur s).1 + 1 ≤ selSize s + sumr r (spreadNamesSel s)
+  | .field _ _ _ _ sub _, cur => by
+    have := dpItems_spreads rec max r hr sub (cur + 1)
+    simp only [dpSel, selSize, spreadNamesSel]
+    split
+    · simp only; omega
+    · split
+      · simp only; omega
+      · omega
+  | .spread n _ _, cur => by
+    have := hr (cur + 1) n
+    simp only [dpSel, selSize, spreadNamesSel, sumr_cons, sumr_nil]
+    omega
+  | .inline _ _ sub _, cur => by
+    have := dpItems_spreads rec max r hr sub (cur + 1)
+    simp only [dpSel, selSize, spreadNamesSel]
+    split
+    · simp only; omega
+    · omega
+theorem dpItems_spreads (rec : Nat → String → Nat × Bool) (max : Nat) (r : String → Nat)
+    (hr : ∀ cur n, (rec cur n).1 ≤ r n) :
+    ∀ (ss : List Sel) (cur : Nat), (dpItems rec max cur ss).1 ≤ selsSize ss + sumr r (spreadNames ss)
+  | [], _ => by simp [dpItems, selsSize]
+  | s :: ss, cur => by
+    have := dpSel_spreads rec max r hr s cur
+    have := dpItems_spreads rec max r hr ss cur
+    simp only [dpItems, selsSize, spreadNames, sumr_append]
+    split <;> simp only <;> omega
+end
+
+mutual
+theorem mdSel_spreads (rec : String → Nat × Bool) (lim : Nat) (r : String → Nat) (hr : ∀ n, (rec n).1 ≤ r n) :
+    ∀ (s : Sel), (mdSel rec lim s).1 + 1 ≤ selSize s + sumr r (spreadNamesSel s)
+  | .field _ _ _ _ sub _ => by
+    have := mdSels_spreads rec lim r hr sub
+    simp only [mdSel, selSize, spreadNamesSel]
+    split
+    · simp only; omega
+    · omega
+  | .spread n _ _ => by
+    have := hr n
+    simp only [mdSel, selSize, spreadNamesSel, sumr_cons, sumr_nil]
+    omega
+  | .inline _ _ sub _ => by
+    have := mdSels_spreads rec lim r hr sub
+    simp only [mdSel, selSize, spreadNamesSel]
+    omega
+theorem mdSels_spreads (rec : String → Nat × Bool) (lim : Nat) (r : String → Nat) (hr : ∀ n, (rec n).1 ≤ r n) :
+    ∀ (ss : List Sel), (mdSels rec lim ss).1 ≤ selsSize ss + sumr r (spreadNames ss)
+  | [] => by simp [mdSels, selsSize]
+  | s :: ss => by
+    have := mdSel_spreads rec lim r hr s
+    have := mdSels_spreads rec lim r hr ss
+    simp only [mdSels, selsSize, spreadNames, sumr_append]
+    split <;> simp only <;> omega
+end
+
+/-- the tree walk: what entering fragment `n` costs a walker that re-walks at every spread, as a
+    recurrence over the spread names of the fragment bodies only -/
+def tw (d : Doc) : Nat → String → Nat
+  | 0, _ => 0
+  | k + 1, n =>
+    match d.frag? n with
+    | some f => selsSize f.sels + sumr (tw d k) (spreadNames f.sels)
+    | none => 0
+
+theorem vFrag_le_tw (d : Doc) : ∀ k n, vFrag d k n ≤ tw d k n
+  | 0, _ => by simp [vFrag, tw]
+  | k + 1, n => by
+    cases h : d.frag? n with
+    | none => simp [vFrag, tw, h]
+    | some f =>
+      simp only [vFrag, tw, h]
+      exact vSels_spreads _ _ (vFrag_le_tw d k) _
+
+theorem dpFrag_le_tw (d : Doc) (max : Nat) : ∀ k cur n, (dpFrag d max k cur n).1 ≤ tw d k n
+  | 0, _, _ => by simp [dpFrag, tw]
+  | k + 1, cur, n => by
+    cases h : d.frag? n with
+    | none => simp [dpFrag, tw, h]
+    | some f =>
+      simp only [dpFrag, tw, h]
+      split
+      · simp
+      · exact dpItems_spreads _ _ _ (dpFrag_le_tw d max k) _ _
+
+theorem mdFrag_le_tw (d : Doc) (lim : Nat) : ∀ k n, (mdFrag d lim k n).1 ≤ tw d k n
+  | 0, _ => by simp [mdFrag, tw]
+  | k + 1, n => by
+    cases h : d.frag? n with
+    | none => simp [mdFrag, tw, h]
+    | some f =>
+      simp only [mdFrag, tw, h]
+      exact mdSels_spreads _ _ _ (mdFrag_le_tw d lim k) _
+
+/-- the names spread in the bodies of a list of fragment definitions, with repetitions -/
+def bodies (fs : List FragDef) : List String := fs.flatMap (fun f => spreadNames f.sels)
+
+theorem bodies_split (l1 l2 : List FragDef) (g : FragDef) :
+    bodies (l1 ++ g :: l2) = bodies l1 ++ (spreadNames g.sels ++ bodies l2) := by
+  simp [bodies]
+
+theorem bodies_append (l1 l2 : List FragDef) : bodies (l1 ++ l2) = bodies l1 ++ bodies l2 := by
+  simp [bodies]
+
+theorem fragsSels_append (l1 l2 : List FragDef) : fragsSels (l1 ++ l2) = fragsSels l1 + fragsSels l2 := by
+  induction l1 with
+  | nil => simp [fragsSels]
+  | cons f l1 ih => simp only [List.cons_append, fragsSels, ih]; omega
+
+theorem frag?_name {d : Doc} {n : String} {f : FragDef} (h : d.frag? n = some f) : f.name = n := by
+  have := List.find?_some h
+  simpa using this
+
+theorem sumr_tw_zero (d : Doc) (ns : List String) : sumr (tw d 0) ns = 0 := by
+  induction ns with
+  | nil => rfl
+  | cons n ns ih => rw [sumr_cons, ih]; simp [tw]
+
+/-- Occurrence counting over the spread forest.  `ns` are names about to be entered, `later` names
+    that will be entered afterwards, `avail` the fragment definitions nobody has entered yet.  If no
+    name occurs twice among `ns`, `later` and the bodies of `avail`, and every such name that
+    denotes a fragment denotes one of `avail`, then entering all of `ns` (re-walking at every
+    spread, any depth `k`) is paid for by the bodies of the fragments it uses up, and the same
+    situation holds afterwards for `later` and the fragments left over. -/
+theorem tw_budget (d : Doc) : ∀ (k : Nat) (ns later : List String) (avail : List FragDef),
+    (ns ++ later ++ bodies avail).Nodup →
+    (∀ m ∈ ns ++ later ++ bodies avail, ∀ g, d.frag? m = some g → g ∈ avail) →
+    ∃ out, (later ++ bodies out).Nodup ∧ (∀ m ∈ later ++ bodies out, ∀ g, d.frag? m = some g → g ∈ out) ∧
+      sumr (tw d k) ns + fragsSels out ≤ fragsSels avail := by
+  intro k
+  induction k with
+  | zero =>
+    intro ns later avail h1 h2
+    refine ⟨avail, ?_, ?_, ?_⟩
+    · simp only [List.nodup_append, List.mem_append] at h1 ⊢
+      grind
+    · intro m hm g hg
+      exact h2 m (by simp only [List.mem_append] at hm ⊢; grind) g hg
+    · rw [sumr_tw_zero]; omega
+  | succ k ih =>
+    intro ns
+    induction ns with
+    | nil =>
+      intro later avail h1 h2
+      exact ⟨avail, by simpa using h1, by simpa using h2, by simp [sumr_nil]⟩
+    | cons n ns ihn =>
+      intro later avail h1 h2
+      cases hf : d.frag? n with
+      | none =>
+        obtain ⟨out, o1, o2, o3⟩ := ihn later avail
+          (by simp only [List.cons_append, List.nodup_cons] at h1; exact h1.2)
+          (fun m hm g hg => h2 m (by simp only [List.cons_append, List.mem_cons]; exact Or.inr hm) g hg)
+        refine ⟨out, o1, o2, ?_⟩
+        have e : tw d (k + 1) n = 0 := by simp only [tw, hf]
+        rw [sumr_cons, e]
+        omega
+      | some g =>
+        have hg : g ∈ avail := h2 n (by simp) g hf
+        obtain ⟨l1, l2, rfl⟩ := List.append_of_mem hg
+        have hgn := frag?_name hf
+        rw [bodies_split] at h1 h2
+        -- enter `g`: its body's spreads first, the siblings and `later` afterwards
+        obtain ⟨out1, p1, p2, p3⟩ := ih (spreadNames g.sels) (ns ++ later) (l1 ++ l2)
+          (by
+            rw [bodies_append]
+            simp only [List.cons_append, List.nodup_cons, List.nodup_append, List.mem_append] at h1 ⊢
+            grind)
+          (by
+            intro m hm g' hg'
+            rw [bodies_append] at hm
+            have hmem : m ∈ n :: ns ++ later ++ (bodies l1 ++ (spreadNames g.sels ++ bodies l2)) := by
+              simp only [List.cons_append, List.mem_cons, List.mem_append] at hm ⊢
+              grind
+            have hin := h2 m hmem g' hg'
+            have hne : m ≠ n := by
+              simp only [List.cons_append, List.nodup_cons, List.mem_append] at h1
+              simp only [List.mem_append] at hm
+              intro e; subst e
+              grind
+            have hgg : g' ≠ g := by
+              intro e; subst e
+              exact hne ((frag?_name hg').symm.trans hgn)
+            simp only [List.mem_append, List.mem_cons] at hin ⊢
+            grind)
+        obtain ⟨out2, q1, q2, q3⟩ := ihn later out1 p1 p2
+        refine ⟨out2, q1, q2, ?_⟩
+        have e : tw d (k + 1) n = selsSize g.sels + sumr (tw d k) (spreadNames g.sels) := by
+          simp only [tw, hf]
+        rw [sumr_cons, e]
+        rw [fragsSels_append] at p3 ⊢
+        simp only [fragsSels]
+        omega
+
+/-- no fragment name is spread twice in the whole document (operations and fragment definitions) -/
+def NoRepeat (d : Doc) : Prop :=
+  ((d.ops.map fun o => spreadNames o.sels) ++ (d.frags.map fun f => spreadNames f.sels)).flatten.Nodup
+
+def opsNames (os : List OpDef) : List String := os.flatMap (fun o => spreadNames o.sels)
+
+theorem noRepeat_iff (d : Doc) : NoRepeat d ↔ (opsNames d.ops ++ bodies d.frags).Nodup := by
+  simp [NoRepeat, opsNames, bodies, List.flatMap_def]
+
+/-- with no repeated spread, entering everything the operations spread costs at most the bodies
+    of the fragment definitions — each is walked at most once, at every depth `k` -/
+theorem tw_ops_le (d : Doc) (h : NoRepeat d) (k : Nat) : sumr (tw d k) (opsNames d.ops) ≤ fragsSels d.frags := by
+  obtain ⟨out, _, _, h3⟩ := tw_budget d k (opsNames d.ops) [] d.frags
+    (by simpa using (noRepeat_iff d).1 h)
+    (fun m _ g hg => frag?_mem hg)
+  omega
+
+theorem sum_ops_spreads (r : String → Nat) : ∀ (os : List OpDef),
+    (os.map fun o => selsSize o.sels + sumr r (spreadNames o.sels)).sum = opsSels os + sumr r (opsNames os)
+  | [] => by simp [opsSels, opsNames, sumr_nil]
+  | o :: os => by
+    have ih := sum_ops_spreads r os
+    simp only [opsNames] at ih ⊢
+    simp only [List.map_cons, List.sum_cons, opsSels, List.flatMap_cons, sumr_append, ih]
+    omega
+
+theorem inlinePassPinned_norepeat (c : Config) (d : Doc) (h : NoRepeat d) : inlinePassPinned c d ≤ size d := by
+  have h1 : inlinePassPinned c d ≤
+      (d.ops.map fun o => selsSize o.sels + sumr (tw d (c.recLimit + 1)) (spreadNames o.sels)).sum := by
+    simp only [inlinePassPinned]
+    apply sum_map_le_of_le
+    intro o _
+    have := vSels_spreads _ _ (vFrag_le_tw d (c.recLimit + 1)) o.sels
+    split <;> omega
+  rw [sum_ops_spreads] at h1
+  have := tw_ops_le d h (c.recLimit + 1)
+  have := sels_le_size d
+  omega
+
+theorem depthPinned_norepeat (c : Config) (d : Doc) (h : NoRepeat d) : (depthPinned c d).1 ≤ size d := by
+  have h1 := seqOps_le (fun o => dpItems (dpFrag d c.recLimit (c.recLimit + 2)) c.recLimit 0 o.sels)
+    (fun o => selsSize o.sels + sumr (tw d (c.recLimit + 2)) (spreadNames o.sels)) d.ops
+    (fun o _ => dpItems_spreads _ _ _ (dpFrag_le_tw d c.recLimit (c.recLimit + 2)) o.sels 0)
+  rw [sum_ops_spreads] at h1
+  have := tw_ops_le d h (c.recLimit + 2)
+  have := sels_le_size d
+  simp only [depthPinned]
+  omega
+
+theorem dirsPinned_norepeat (c : Config) (lim : Nat) (d : Doc) (h : NoRepeat d) : (dirsPinned c lim d).1 ≤ size d := by
+  have h1 := seqOps_le (fun o => mdSels (mdFrag d lim (c.recLimit + 1)) lim o.sels)
+    (fun o => selsSize o.sels + sumr (tw d (c.recLimit + 1)) (spreadNames o.sels)) d.ops
+    (fun o _ => mdSels_spreads _ _ _ (mdFrag_le_tw d lim (c.recLimit + 1)) o.sels)
+  rw [sum_ops_spreads] at h1
+  have := tw_ops_le d h (c.recLimit + 1)
+  have := sels_le_size d
+  simp only [dirsPinned]
+  omega
+
 end AGV.Lemmas.Cost
